@@ -1,7 +1,70 @@
-import Driver.Util
-open Lean
+import Driver.TyJson
+import Heph.Model.Unify
+/-! ops of the family `unify`:
+
+* `unify.run {tt, target, pattern, any, same_type, bn, variant?, expect?}` → the dict of the model
+  as a list of `[var, type|null]` pairs in insertion order — `true` when the request carries
+  `"expect": [[varIdx, typeIdx|null], …]` and the model's dict is structurally equal to it (same
+  keys, same values, same order) — or the name of the exception;
+* `unify.current` → which variant `Heph.Unify.unify` is (`"asIs"` / `"repaired"`). -/
+open Lean Heph Heph.Ty Heph.Unify
 namespace Driver.Unify
 
-def handle : Handler := fun _ _ => none
+def urToJson (f : UMap → Json) : UR → Json
+  | .ok m => f m
+  | .attrError => Json.str "AttributeError"
+  | .typeError => Json.str "TypeError"
+  | .indexError => Json.str "IndexError"
+  | .notImpl => Json.str "NotImplementedError"
+  | .kfuel => Json.str "fuel"
+  | .fuel => Json.str "fuel"
+
+def mapToJson (m : UMap) : Json :=
+  Json.arr (m.toArray.map fun p => Json.arr #[tyToJson p.1, tyOptToJson p.2])
+
+def parseExpect (tbl : Array Ty) (j : Json) : Except String (Option UMap) := do
+  match j.getObjVal? "expect" with
+  | .error _ => pure none
+  | .ok e =>
+    let a ← e.getArr?
+    let l ← a.toList.mapM fun x => do
+      let p ← x.getArr?
+      if p.size != 2 then throw "pair expected"
+      let ki ← p[0]!.getNat?
+      let v ← idxOpt tbl p[1]!
+      match tbl[ki]? with
+      | some k => pure (k, v)
+      | none => throw "type index out of range"
+    pure (some l)
+
+def mapEq : UMap → UMap → Bool
+  | [], [] => true
+  | (k, v) :: xs, (k', v') :: ys => structEq k k' && structEqO v v' && mapEq xs ys
+  | _, _ => false
+
+def variantOf (j : Json) : Variant :=
+  match j.getObjVal? "variant" with
+  | .ok (Json.str "asIs") => .asIs
+  | .ok (Json.str "repaired") => .repaired
+  | _ => Variant.current
+
+def handle : Handler := fun op j =>
+  match op with
+  | "unify.run" => some (do
+      let tbl ← parseTable j
+      let t1 ← tyAt tbl j "target"
+      let t2 ← tyAt tbl j "pattern"
+      let fac ← tyOptAt tbl j "any"
+      let st ← getBool j "same_type"
+      let bn ← parsePairs j "bn"
+      let exp ← parseExpect tbl j
+      let r := unifyV (variantOf j) bn fac st t1 t2
+      pure (res (urToJson (fun m =>
+        match exp with
+        | some e => if mapEq m e then Json.bool true else mapToJson m
+        | none => mapToJson m) r)))
+  | "unify.current" => some (pure (res (Json.str (match Variant.current with
+      | .asIs => "asIs" | .repaired => "repaired"))))
+  | _ => none
 
 end Driver.Unify
